@@ -32,6 +32,6 @@ def makeMove (s : State) (mv : Move) : State × MoveResult :=
   else (s, ⟨false, false⟩)
 
 /-- `evaluate(timeout)` with the timeout firing at poll `k` -/
-def evaluate (s : State) (k : Nat) (prevMaxDepth : Nat := 0) : Result := search s.board s.table k prevMaxDepth
+def evaluate (s : State) (k : Nat) (prevMaxDepth : Nat := 0) : Result := search false s.board s.table k prevMaxDepth
 
 end Chess.Bot
